@@ -82,6 +82,10 @@ let () =
       let line = input_line stdin in
       match split_ws line with
       | "TREE" :: _ as w -> print_endline (run_tree_line bodies w)
+      | "LIBM" :: fn :: h :: _ ->
+          (* the oracle the model is run with, for the H_libm measurements of C13 *)
+          let f = (match fn with "sin" -> lm.l_sin | "cos" -> lm.l_cos | "exp" -> lm.l_exp | _ -> lm.l_log) in
+          print_endline (hex_of_f64 (f (f64_of_hex h)))
       | idx :: par :: argc :: rest ->
           let body = bodies.(int_of_string idx) in
           let args = List.map parse_value (List.filteri (fun i _ -> i < int_of_string argc) rest) in
